@@ -149,7 +149,14 @@ fn broken(rng: &mut Rng) -> TextItem {
 
 /// One generated input text, a pure function of the PRNG state.
 pub fn ambient_text(rng: &mut Rng) -> TextItem {
-    match rng.weighted(&[20, 12, 16, 34, 10, 8]) {
+    match rng.weighted(&[20, 12, 16, 34, 10, 8, 5]) {
+        6 => {
+            // identical right-hand sides told apart by context: LALR(1), LR(1)-only or neither
+            let cfg = gen::fam_lr1ish(rng);
+            let g = gen::decorate(&cfg, rng, DecoOpts { collide_pct: 5, unreachable: false, payload: "()", shuffle: true });
+            let mut lay = rng.clone();
+            TextItem { text: render(&g, &mut lay), category: "lr1ish", planted: 0 }
+        }
         0 => {
             let g = valid_grammar(rng, 30);
             let mut lay = rng.clone();
